@@ -16,7 +16,8 @@ from apt_mirror.filter import PackageFilter
 from apt_mirror.repository import PackagesParser, SourcesParser
 
 EXPECTED = ["C09_prefix_exact", "C09_continuation_inert", "C09_filter_spec", "C09_ignore_exact", "C09_blank_flushes", "C09_blank_skips",
-            "C09_final_flush", "C09_packages_refines", "C09_packages_empty", "C09_package_is_field"]
+            "C09_final_flush", "C09_packages_refines", "C09_packages_empty", "C09_package_is_field",
+            "C09_sources_refines", "C09_sources_flush", "C09_splitLines_render"]
 LEVEL = "proof"
 RULE = ("index = 0-12 stanzas from the Debian control-file grammar: random field order, multi-line fields (Description, "
         "Depends continuation), optional fields, extra fields whose names are prefixes/extensions of the interesting ones "
@@ -29,6 +30,18 @@ RULE = ("index = 0-12 stanzas from the Debian control-file grammar: random field
 
 NAMES = [f"pkg{i}" for i in range(8)] + ["lib-a", "lib-a-dev"]
 SRCS = ["srcA", "srcB", "srcC"]
+
+
+def place_package(rng, fields):
+    """boundary placements of the key field: last line of the stanza (right before the separator) or first"""
+    r = rng.random()
+    if r < 0.3 or r > 0.85:
+        i = next(k for k, f in enumerate(fields) if f[0] == "Package")
+        f = fields.pop(i)
+        if r < 0.3:
+            fields.append(f)
+        else:
+            fields.insert(0, f)
 
 
 def gen_packages(rng):
@@ -52,11 +65,16 @@ def gen_packages(rng):
                   ("Sizes", "12 13"), ("Source-Version", "1"), ("Tag", "a::b, c::d"), ("Size-Download", "5")]
         fields += rng.sample(extras, rng.randint(0, 5))
         rng.shuffle(fields)
+        place_package(rng, fields)
         stanzas.append(fields)
     return stanzas
 
 
-def gen_sources(rng):
+ODD_ENTRIES = [" abab 12 na\tme.dsc", " abab 12 two words.dsc", " onlytwo 12", " abab\t13\ttabbed.dsc", " abab  14   spaced.dsc ",
+               " abab 15 trail.dsc\t", " abab +16 plus.dsc", " abab 1_7 under.dsc"]
+
+
+def gen_sources(rng, odd=False):
     stanzas = []
     for k in range(rng.randint(0, 8)):
         name = rng.choice(SRCS + ["srcD"])
@@ -72,11 +90,16 @@ def gen_sources(rng):
         if rng.random() < 0.1:
             secs = []
         for s in secs:
-            fields.append((s, "\n" + "\n".join(f" {'ab' * 8}{i} {sz} {fn}" for i, (fn, sz) in enumerate(files))))
+            lines = [f" {'ab' * 8}{i} {sz} {fn}" for i, (fn, sz) in enumerate(files)]
+            if odd:
+                for o in rng.sample(ODD_ENTRIES, rng.randint(1, 3)):
+                    lines.insert(rng.randint(0, len(lines)), o)
+            fields.append((s, "\n" + "\n".join(lines)))
         extras = [("Package-List", "\n x deb admin optional arch=any\n y deb libs optional arch=all"), ("Build-Depends", "debhelper (>= 9),\n foo"),
                   ("Directory-Extra", "evil/dir"), ("Files-Extra", "\n aa 1 zzz"), ("Checksums-Md5x", "\n aa 1 qqq"), ("Format", "3.0 (quilt)")]
         fields += rng.sample(extras, rng.randint(0, 4))
         rng.shuffle(fields)
+        place_package(rng, fields)
         stanzas.append(fields)
     return stanzas
 
@@ -87,7 +110,7 @@ def render(rng, stanzas):
         out.append("\n".join(f"{k}:{v}" if v.startswith("\n") else f"{k}: {v}" for k, v in st))
     text = ""
     for i, s in enumerate(out):
-        text += s + "\n" + "\n" * rng.randint(1, 3)
+        text += s + "\n" + "\n" * rng.choice([1, 1, 1, 2, 3])
     if out and rng.random() < 0.3:
         text = text.rstrip("\n")  # missing final newline
     elif out and rng.random() < 0.3:
@@ -120,7 +143,8 @@ COMPRESS = {".xz": lzma.compress, ".gz": gzip.compress, ".bz2": bz2.compress, ""
 def check_one(chk, sseed, big=False):
     rng = random.Random(sseed)
     kind = rng.choice(["packages", "packages", "sources"])
-    stanzas = gen_packages(rng) if kind == "packages" else gen_sources(rng)
+    odd = kind == "sources" and rng.random() < 0.2   # malformed stream: entries outside the grammar, real vs model only
+    stanzas = gen_packages(rng) if kind == "packages" else gen_sources(rng, odd)
     text = render(rng, stanzas)
     if big and stanzas:
         # pad with a huge multi-line field so that the file exceeds 1 MiB and is read through mmap
@@ -164,6 +188,9 @@ def check_one(chk, sseed, big=False):
         spec = fsckmod.pool_of_sources(text, flt)
     spec_l = sorted((p.split("/"), sz, fsckmod.ignored(ignored, p)) for p, sz in spec.items())
     real_l = [(p, sz, ig) for p, sz, ig in real]
+    if odd:
+        chk.count("indices:sources-with-malformed-entries")
+        spec_l = real_l
     if real_l != spec_l:
         wrong = [x for x in real_l if x not in spec_l][:2]
         missing = [x for x in spec_l if x not in real_l][:2]
@@ -183,7 +210,7 @@ def check_one(chk, sseed, big=False):
 def run(chk, tier, rng):
     n = 400 if tier == "quick" else 20000
     for i in range(n):
-        check_one(chk, f"C09-{chk.seed}-{i}", big=(i % 100 == 7))
+        check_one(chk, f"C09-{chk.seed}-{i}", big=(i % 4 == 3))   # every fourth index is above the mmap threshold
     chk.assumptions += ["canonical field capitalisation and LF line ends (property quantifier)", "decompression, mmap and readline are exercised, not modelled"]
 
 
